@@ -454,8 +454,17 @@ pub fn walk(
         // Follow the engine's own objects as long as they hold the right position and key;
         // otherwise (already reported by the property concerned) resynchronise from a fresh load
         // so that one defect does not cascade down the rest of the game.
+        // C01 / C06 / C13 judge the engine's own chain of objects against the true game: as long
+        // as the successor holds the right pieces and side to move it stays the carrier even if
+        // its rights / ep target / key are off (C02 / C05 report that), so that the consequences
+        // - e.g. a castling move offered two plies after a missed right revocation - are observed.
+        let lenient = matches!(prop, Prop::C01 | Prop::C06 | Prop::C13);
         c.gen = match next_gen {
             Some(g) if fields_of(&g) == want && g.zobrist_key == want_key => g,
+            Some(g) if lenient && { let f = fields_of(&g); f.sq == want.sq && f.stm == want.stm && f.ring_ok } => {
+                acc.count("gen_carrier_followed_despite_state_mismatch", 1);
+                g
+            }
             _ => {
                 acc.count("gen_carrier_resyncs", 1);
                 fresh_next.clone()
@@ -512,6 +521,38 @@ pub fn capture_chains(p: &Pos, eb: &BoardState, h: &ZobristHasher, origin: &Orig
         }
         // the engine continues from its own capture-only successor, the oracle from the real position
         capture_chains(&np, s, h, &o, rng, acc, depth + 1);
+    }
+}
+
+/// Lock-step tree walk: expand the engine's own successor objects to `depth` plies and compare
+/// every node with the oracle (a differential perft that looks at sets and fields, not counts).
+/// Consequences of a wrong successor (e.g. a right that was not revoked) are met one or more
+/// plies later because the engine-side carrier is the engine's own object.
+pub fn tree_check(p: &Pos, eb: &BoardState, depth: usize, h: &ZobristHasher, prop: Prop, origin: &Origin, acc: &mut Acc) {
+    let legal = legal_moves(p);
+    note_position(p, &legal, acc);
+    acc.count("tree_nodes", 1);
+    if prop == Prop::C06 {
+        check_is_check(p, eb, "generator chain", origin, acc);
+    }
+    let matched = match check_generation(p, eb, MoveGenerationMode::AllMoves, h, prop, origin, acc) {
+        Some(m) => m,
+        None => return,
+    };
+    if depth == 0 {
+        return;
+    }
+    for (m, s) in matched.ok.iter() {
+        let np = apply(p, *m);
+        let f = fields_of(s);
+        // only a successor that holds the right pieces can be compared further
+        if f.sq != np.sq || f.stm != np.stm || !f.ring_ok {
+            continue;
+        }
+        let mut o = origin.clone();
+        o.moves.push(*m);
+        o.carrier = "gen";
+        tree_check(&np, s, depth - 1, h, prop, &o, acc);
     }
 }
 
